@@ -20,7 +20,7 @@ from scales.loadbalancer.base import NoMembersError
 from scales.loadbalancer.heap import HeapBalancerSink
 from scales.loadbalancer.aperture import ApertureBalancerSink
 from scales.loadbalancer.serverset import ServerSetProvider
-from scales.message import MethodCallMessage, MethodReturnMessage
+from scales.message import Deadline, MethodCallMessage, MethodReturnMessage, TimeoutError
 from scales.observable import Observable
 from scales.sink import ClientMessageSink, ClientMessageSinkStack, SinkProviderBase
 from scales.varz import VarzReceiver
@@ -119,6 +119,9 @@ class Channel(ClientMessageSink):
 
   def AsyncProcessRequest(self, sink_stack, msg, stream, headers):
     req = msg.properties.get('__vf_req')
+    if req is not None and getattr(req, 'timed_out_parked', False):
+      for prop in ('C04', 'C03', 'C05', 'C06'):
+        self.run.viol(prop, 'dispatched-after-timeout', 'request %d timed out while it was parked in the balancer (its caller holds TimeoutError), yet it was handed to %r later: that member carries load for a call that is over' % (req.id, self))
     self.requests.append(req)
     if req is not None:
       req.channel = self
@@ -618,6 +621,8 @@ class LBRun(object):
     msg = MethodCallMessage(None, 'm', (rid,), {})
     msg.properties['__vf_req'] = r
     msg.properties[MessageProperties.Endpoint] = None
+    # what the timeout sink above the balancer puts on every call that has a deadline
+    msg.properties[Deadline.EVENT_KEY] = Observable()
     r.stack, r.msg = st, msg
     was_open = self.is_open()
     members = self.model_members()
@@ -712,6 +717,23 @@ class LBRun(object):
       raise
     except Exception as e:
       self.raised('completing request %d on %r' % (r.id, r.channel), e)
+
+  def op_expire_parked(self, i):
+    """The deadline of a call that is still parked in the balancer (dispatched before it had opened) passes: the timeout
+    sink signals the call's event and hands its caller TimeoutError."""
+    parked = [r for r in self.reqs if r.channel is None and not r.completions and Deadline.EVENT_KEY in r.msg.properties]
+    if not parked or self.is_open():
+      return
+    r = parked[i % len(parked)]
+    self.flags.add('parked_call_timed_out')
+    r.timed_out_parked = True
+    r.msg.properties[Deadline.EVENT_KEY].Set(True)
+    try:
+      r.stack.AsyncProcessResponseMessage(MethodReturnMessage(error=TimeoutError()))
+    except Violation:
+      raise
+    except Exception as e:
+      self.raised('timing out parked request %d' % r.id, e)
 
   def op_dup(self, i):
     done = [r for r in self.reqs if r.completions and r.channel is not None]
@@ -888,6 +910,8 @@ class LBRun(object):
         self.op_complete(op[1], op[2])
       elif k == 'dup':
         self.op_dup(op[1])
+      elif k == 'expire_parked':
+        self.op_expire_parked(op[1])
       elif k == 'down':
         self.op_down(op[1], op[2])
       elif k == 'up':
